@@ -272,14 +272,15 @@ impl Report {
         for (k, v) in &self.stats.classes {
             eprintln!("    class {k}: {v}");
         }
-        if !self.machinery_errors.is_empty() {
-            for e in &self.machinery_errors {
-                eprintln!("MACHINERY ERROR: {e}");
-            }
-            return 2;
+        for e in &self.machinery_errors {
+            eprintln!("MACHINERY ERROR: {e}");
         }
+        // a violation is a verdict even if the run was cut short by it (vacuity guards only
+        // matter for a run that claims the property held)
         if n_viol > 0 {
             1
+        } else if !self.machinery_errors.is_empty() {
+            2
         } else {
             0
         }
